@@ -106,6 +106,21 @@ def body_adaptive(case):
         raise Violation("adaptive:feasible-rejected", f"a feasible scale pair exists (e.g. {feas.x[-2:].tolist()}) but the call raised: {e}")
     X, scales, Bp = np.asarray(X), np.asarray(scales), np.asarray(Bp)
     check(X.shape == (size, sv.n) and scales.shape == (2,) and Bp.shape == B.shape, "adaptive:shape", f"{X.shape} {scales.shape} {Bp.shape}")
+    if case["entry"] != "estimator" and size % 2 == 0:
+        # whole-number targets (counts): the int64 array gets the answer of the same numbers as floats (also "no feasible scales")
+        from dreye.api.optimize.lsq_linear import lsq_linear_adaptive as _adaptive
+
+        whole = np.round(B)
+        res = []
+        for arg in (whole.astype(np.int64), whole.copy()):
+            try:
+                with calling("fit_adaptive of whole-number targets (int64 / float64)", allow=(RuntimeError,)):
+                    res.append(np.asarray(_adaptive(sv.A, arg, return_pred=True, **sv.kwargs(), **kw)[1], dtype=float))
+            except RuntimeError:
+                res.append(None)
+        check((res[0] is None) == (res[1] is None) and (res[0] is None or np.all(np.abs(res[0] - res[1]) <= 1e-6 * (1.0 + np.abs(res[1])))), "adaptive:integer-targets-differ",
+              f"targets {whole[:3].tolist()}.. as an int64 array give scales {None if res[0] is None else res[0].tolist()}, as floats {None if res[1] is None else res[1].tolist()}")
+        labs.append("whole-number-twin")
     check(not feasible or True, "adaptive:never", "")
     if not feasible:
         # a feasible set that exists only up to the LP's tolerance (razor-thin: scales close to 0) is a band case
